@@ -115,8 +115,10 @@ type FS struct {
 	RetiredIDs    map[uint64]bool
 	CreateRetired []string
 	LiveIDs       map[uint64]bool
-	CreateDup     []string // Create called on an existing name
-	Trace         []Event  // recorded events if RecordTrace
+	liveBase      map[uint64]uint64 // base index of each listed ID
+	retiredBase   map[uint64]uint64 // base index an ID had when it was retired
+	CreateDup     []string          // Create called on an existing name
+	Trace         []Event           // recorded events if RecordTrace
 	RecordTrace   bool
 	ReadBudget    func(name string, size int) int // optional per-handle ReadAt budget
 	// PostRead, if set, runs after every ReadAt has filled p (outside the lock).
@@ -532,18 +534,33 @@ func (m *Meta) CommitState(st types.PersistentState) error {
 	m.fs.mu.Lock()
 	m.fs.meta = raw
 	now := map[uint64]bool{}
+	nowBase := map[uint64]uint64{}
 	for _, si := range st.Segments {
 		now[si.ID] = true
+		nowBase[si.ID] = si.BaseIndex
 	}
 	if m.fs.RetiredIDs == nil {
 		m.fs.RetiredIDs = map[uint64]bool{}
 	}
+	if m.fs.retiredBase == nil {
+		m.fs.retiredBase = map[uint64]uint64{}
+	}
 	for id := range m.fs.LiveIDs {
 		if !now[id] {
 			m.fs.RetiredIDs[id] = true
+			m.fs.retiredBase[id] = m.fs.liveBase[id]
+		}
+	}
+	// the very same segment (ID and base index) listed again is a roll-back to the previous
+	// state (a commit undone after a failed segment creation), not a re-use of the identity
+	for id, base := range nowBase {
+		if m.fs.RetiredIDs[id] && m.fs.retiredBase[id] == base {
+			delete(m.fs.RetiredIDs, id)
+			delete(m.fs.retiredBase, id)
 		}
 	}
 	m.fs.LiveIDs = now
+	m.fs.liveBase = nowBase
 	m.fs.mu.Unlock()
 	return nil
 }
@@ -882,6 +899,14 @@ func (nf *FS) copyLedger(fs *FS) {
 	nf.LiveIDs = map[uint64]bool{}
 	for k := range fs.LiveIDs {
 		nf.LiveIDs[k] = true
+	}
+	nf.liveBase = map[uint64]uint64{}
+	for k, v := range fs.liveBase {
+		nf.liveBase[k] = v
+	}
+	nf.retiredBase = map[uint64]uint64{}
+	for k, v := range fs.retiredBase {
+		nf.retiredBase[k] = v
 	}
 	nf.CreateRetired = append([]string(nil), fs.CreateRetired...)
 }
